@@ -162,7 +162,14 @@ PgBitDenotes(x, v) ==
   /\ LET len == SmallBE(SubSeq(x, 1, 4))
          data == SubSeq(x, 5, Len(x))
          pad == (8 - (len % 8)) % 8
-     IN (len >= 0 /\ Len(data) = (len + 7) \div 8) => v = Div2(BEVal(data), pad)
+     IN \* the header's bit count must agree with the payload ("malformed headers are errors")
+        len >= 0 /\ Len(data) = (len + 7) \div 8 /\ v = Div2(BEVal(data), pad)
+\* FLOAT4 / FLOAT8: big-endian IEEE pattern of a finite non-negative float; the value is floor(f + 1/2) (C18)
+PgFloatDenotes(x, v, fm, k) ==
+  /\ Len(x) = k
+  /\ LET p == BEVal(x) IN
+       /\ ~FIsNaN(p, fm) /\ ~FIsInf(p, fm) /\ (FSign(p, fm) => FIsZeroVal(p, fm))
+       /\ v = RoundHalfUp(p, fm)
 PgNumericDenotes(x, v) ==
   /\ Len(x) >= 8
   /\ x[1] < 128
@@ -182,7 +189,11 @@ PgDenotes(t, x, v, n) ==
   /\ Lt2(v, n)
   /\ IF t = "pg_bool" THEN (x = <<0>> /\ IsZero(v)) \/ (x = <<1>> /\ v = One)
      ELSE IF t \in {"pg_int2", "pg_int4", "pg_int8", "pg_oid"} THEN PgIntDenotes(t, x, v)
-     ELSE IF t = "pg_money" THEN Len(x) = 8 /\ (x[1] < 128 => v = DivModSmall(BEVal(x), 100)[1])
+     ELSE IF t = "pg_money" THEN \* whole currency units, truncating towards zero: -0.99 .. -0.01 denote 0
+          Len(x) = 8 /\ (IF x[1] < 128 THEN v = DivModSmall(BEVal(x), 100)[1]
+                          ELSE IsZero(v) /\ Lt(Sub(Pow2(64), BEVal(x)), FromNat(100)))
+     ELSE IF t = "pg_float4" THEN PgFloatDenotes(x, v, F32, 4)
+     ELSE IF t = "pg_float8" THEN PgFloatDenotes(x, v, F64, 8)
      ELSE IF t = "pg_bytea" THEN Len(x) <= NBytes(n) /\ v = BEVal(x)
      ELSE IF t \in {"pg_bit", "pg_varbit"} THEN PgBitDenotes(x, v)
      ELSE IF t \in {"pg_char", "pg_text", "pg_varchar"} THEN PgTextDenotes(x, v, n)
@@ -296,7 +307,8 @@ CheckDec17(e) ==
        rlpbits |-> OkOnly1("rlpbits", LAMBDA v : RlpDenotes(x, v, n) /\ RlpHeader(x)[4] = nb),
        scale |-> OkOnly2("scale", LAMBDA v, c : ScaleFixedDenotes(x, v, c, n)),
        compact |-> n >= 536 \/ OkOnly2("compact", LAMBDA v, c : CompactDenotes(x, v, c, n)),
-       ssz |-> OkOnly1("ssz", LAMBDA v : Len(x) <= nb /\ v = LEVal(x) /\ Lt2(v, n)),
+       \* fixed-size basic type: exactly ssz_fixed_len bytes ("truncated inputs are errors")
+       ssz |-> OkOnly1("ssz", LAMBDA v : Len(x) = nb /\ v = LEVal(x) /\ Lt2(v, n)),
        borsh |-> OkOnly2("borsh", LAMBDA v, c : Len(x) >= nb /\ c = nb /\ v = LEVal(SubSeq(x, 1, nb)) /\ Lt2(v, n)),
        borshbits |-> OkOnly2("borshbits", LAMBDA v, c : Len(x) >= nb /\ c = nb /\ v = LEVal(SubSeq(x, 1, nb)) /\ Lt2(v, n)),
        der |-> Eq(e, "der", DerCanonical(x, n)),
@@ -315,7 +327,8 @@ CheckDec17(e) ==
        ark |-> IF Len(x) # 8 * ((n + 63) \div 64) THEN TRUE
                ELSE IF big THEN Eq(e, "ark4", LEVal(x)) /\ Eq(e, "ark4r", LEVal(x))
                ELSE Panics(e, "ark4") /\ Panics(e, "ark4r"),
-       pg_float |-> OkOnly1("pg_float4", LAMBDA v : Lt2(v, n)) /\ OkOnly1("pg_float8", LAMBDA v : Lt2(v, n)) ])
+       pg_float4 |-> OkOnly1("pg_float4", LAMBDA v : PgDenotes("pg_float4", x, v, n)),
+       pg_float8 |-> OkOnly1("pg_float8", LAMBDA v : PgDenotes("pg_float8", x, v, n)) ])
 
 CheckCodec(e) ==
   CASE e.op = "enc"   -> CheckEnc16(e)
